@@ -9,9 +9,11 @@
    + open chain through the end slots (proofs/BinTapeWfProofs.v, BinTapeInv.v); the optimised
    interpretation inherits it through the simulation of proofs/BinTapeSim.v.
 
-   NOT proved here: the byte-level clause (string payloads are slices of the input, numeric
-   payloads equal the input bytes at their position) -- the model's tokens carry values, not
-   offsets; the harness checks the pointer range and length prefix of every real string scalar. *)
+   The byte-level clause (string payloads are slices of the input, numeric payloads equal the input
+   bytes at their position) is proved in Props/C06_payload.v (C06_bin_payloads: [payloads_in_input],
+   all byte strings, both interpretations); that every payload lexeme of the input IS on the tape is
+   C06_bin_payloads_all_kept there (through C03's mirror theorem).  The harness additionally checks
+   the pointer range and length prefix of every real string scalar. *)
 From JV Require Import Bytes Tables BinPrim BinTape BinTapeWf.
 From JV.proofs Require Import BinTapeWfProofs BinTapeInv BinTapeSim.
 
